@@ -258,7 +258,7 @@ fn known_sigs() -> &'static Vec<String> {
 /// mailbox while X's task is unwound; another model Y that is sending to X on
 /// another worker then fails with a send error, and its report can be registered
 /// before X's: the call returns NoRecipient(Y) instead of X's error.
-fn is_secondary_send_error(c: &FCase, x: &Expect, got: &Option<ErrKind>) -> bool {
+fn is_secondary_send_error(c: &FCase, b: &Bench, q: &[String], x: &Expect, got: &Option<ErrKind>, injected_to: &[u16]) -> bool {
     if !matches!(c.base.exec, Exec::Mt { .. }) {
         return false;
     }
@@ -267,7 +267,22 @@ fn is_secondary_send_error(c: &FCase, x: &Expect, got: &Option<ErrKind>) -> bool
         Expect::NoRecipient(Some(m)) => m.clone(),
         _ => return false,
     };
-    matches!(got, Some(ErrKind::NoRecipient(Some(y))) if *y != first)
+    // models that carry the name of the first failing model (names need not be unique)
+    let xs: Vec<u16> = (0..q.len()).filter(|i| q[*i] == first).map(|i| i as u16).collect();
+    let sends_to_x = |y: usize| {
+        b.models[y]
+            .outs
+            .iter()
+            .chain(b.models[y].reqs.iter())
+            .any(|conns| conns.iter().any(|cn| matches!(cn.target, Target::Model(t) if xs.contains(&t))))
+    };
+    match got {
+        // another model that has a connection to X
+        Some(ErrKind::NoRecipient(Some(y))) if *y != first => (0..q.len()).any(|i| q[i] == *y && sends_to_x(i)),
+        // the driver-side task of this command (source / scheduler / process_event), which delivers to X
+        Some(ErrKind::NoRecipient(None)) => injected_to.iter().any(|t| xs.contains(t)),
+        _ => false,
+    }
 }
 
 #[derive(Default)]
@@ -465,7 +480,7 @@ pub fn eval_fcase(c: &FCase, prop: &str) -> Result<FInfo, Verdict> {
         shared.release_gates();
         drop(built.world);
         uninstall_picker();
-        if is_secondary_send_error(c, &x0, &init_err) {
+        if is_secondary_send_error(c, &b, &q, &x0, &init_err, &[]) {
             if known_sigs().iter().any(|k| k == SIG_SECONDARY) {
                 info.known_hit = true;
                 return Ok(info);
@@ -604,6 +619,23 @@ pub fn eval_fcase(c: &FCase, prop: &str) -> Result<FInfo, Verdict> {
             Cmd::StepUntil(Dl::Abs(t)) if *t < now => expect_invalid = true,
             _ => {}
         }
+        // models the driver-side task(s) of this command deliver to
+        let mut injected_to: Vec<u16> = Vec::new();
+        for x in &inj {
+            match x {
+                Inj::Direct(m, _, _) => injected_to.push(*m),
+                Inj::Source(s, msg) => {
+                    if let Some(conns) = b.sources.get(*s as usize) {
+                        for (_, t, _) in deliveries(&b, conns, msg, false) {
+                            if let Target::Model(m) = t {
+                                injected_to.push(m);
+                            }
+                        }
+                    }
+                }
+                Inj::Init => {}
+            }
+        }
         let mut e = new_exp(&b);
         for x in &inj {
             match x {
@@ -638,7 +670,7 @@ pub fn eval_fcase(c: &FCase, prop: &str) -> Result<FInfo, Verdict> {
                 finish_drop!(w);
             }
             drop_world(w, &shared);
-            if is_secondary_send_error(c, &x, &err) {
+            if is_secondary_send_error(c, &b, &q, &x, &err, &injected_to) {
                 if known_sigs().iter().any(|k| k == SIG_SECONDARY) {
                     info.known_hit = true;
                     return Ok(info);
